@@ -31,6 +31,7 @@ type tcase struct {
 	ID      string `json:"id"`
 	Src     string `json:"src"`
 	Instant string `json:"instant"`
+	Mode    string `json:"mode"` // "" / "cancel": explicit cancel; "deadline": the context ends with DeadlineExceeded
 	DelayUs int    `json:"delay_us"`
 }
 
@@ -56,6 +57,17 @@ func errClass(err error, ctx context.Context) string {
 	return "other(" + strings.ReplaceAll(strings.ReplaceAll(m, "\n", " "), "\t", " ") + ")"
 }
 
+// deadlineCtx ends like a context whose deadline has passed - context.DeadlineExceeded - at the instant the harness
+// chooses (a real deadline cannot be placed relative to a point of the script's execution).
+type deadlineCtx struct{ context.Context }
+
+func (d deadlineCtx) Err() error {
+	if d.Context.Err() != nil {
+		return context.DeadlineExceeded
+	}
+	return nil
+}
+
 func runCase(c *tcase, out *bufio.Writer) {
 	runtime.GC()
 	var ticks int64
@@ -72,8 +84,13 @@ func runCase(c *tcase, out *bufio.Writer) {
 		return object.Nil
 	})
 	g0 := runtime.NumGoroutine()
-	ctx, cancel := context.WithCancel(context.Background())
+	var ctx context.Context
+	cctx, cancel := context.WithCancel(context.Background())
 	defer cancel()
+	ctx = cctx
+	if c.Mode == "deadline" {
+		ctx = deadlineCtx{cctx}
+	}
 	if c.Instant == "pre" {
 		cancel()
 	}
